@@ -33,6 +33,11 @@ spec objects that were used and then edited in place or copied
 the object came about), and `drv_bind_sequences` / the retry in
 `_check_accept` make sure that binding decides by membership at every attempt
 on the same DNA object (a refusal is final and leaves the DNA unbound).
+Validation/binding probes are the blind one-step `corruptions` of members and
+the model-guided ones (`guided_corruptions`: exactly one constraint among the
+choices of one Choices broken, all sub-trees well-formed -- e.g. one candidate
+picked twice with different decisions in its conditional sub-space).  The
+sweeping generator is driven beyond the end of the sequence (`_sweep_checks`).
 `drv_answer_constructors` covers the constructors that assemble the DNA of a
 spec from one answer per decision point (DNA.from_fn: index lists, ready-made
 sub-tree DNAs, raw float/str values; DNA.from_dict: indices or sub-tree DNAs
@@ -318,7 +323,12 @@ def why_not_dp(m, node):
     if reason:
       return reason
   if distinct and len(set(vals)) != k:
-    return 'duplicate-choices'
+    # The constraint is on the chosen candidates (indices).  Two picks of the
+    # same candidate that differ in the decisions of its conditional sub-space
+    # are an input class of their own (the nodes differ, the indices do not).
+    subtrees = set((c[0], tkey((None, c[1]))) for c in children)
+    return ('duplicate-choices' if len(subtrees) == len(set(vals)) else
+            'duplicate-choices-with-other-sub-decisions')
   if srt and any(vals[i] > vals[i + 1] for i in range(k - 1)):
     return 'unsorted-choices'
   for c in children:
@@ -336,7 +346,15 @@ def why_not_children(m, children):
   if len(elems) == 1:
     e = elems[0]
     if e[0] == 'choices' and e[1] > 1:
-      return why_not_dp(e, (None, children))
+      reason = why_not_dp(e, (None, children))
+      if (reason == 'wrong-number-of-choices' and len(children) == 1
+          and children[0][0] is not None
+          and why_not_dp(e, (None, children[0][1])) is None):
+        # The sole child is the (not inlined) container of the k picks with a
+        # value put on it: the same input class as a value on a root
+        # multi-choice container.
+        return 'value-on-multi-choice-container'
+      return reason
     if not children:
       return 'missing-children'
     if len(children) > 1:
@@ -689,6 +707,115 @@ def corruptions(node, nmax=4):
       continue
     seen.add(key)
     res.append((kind, t))
+  return res
+
+
+# ---- model-guided corruptions ------------------------------------------------
+# The edits above are blind: changing an index leaves the children of the old
+# candidate in place, so the edited tree usually breaks several constraints at
+# once and is refused whichever of them is tested.  The edits below break ONE
+# constraint among the choices of ONE Choices (arity / index range / index type
+# / distinctness / sortedness; `index_list_edits`) and keep everything else
+# well-formed: every changed pick gets the children of a member of its (new)
+# candidate sub-space, and where the same candidate is picked more than once
+# the picks get *different* sub-decisions whenever the sub-space has more than
+# one point (same indices, different nodes).
+
+
+def _children_alternatives(space, r):
+  if not is_finite(space) or count_members(space) <= 200:
+    return space_children(space)
+  return [fresh_children(space, r) for _ in range(4)]
+
+
+def _other_children(space, avoid, r):
+  """Children of a member of `space`, if possible none of those in `avoid`."""
+  alts = _children_alternatives(space, r)
+  used = set(tkey((None, a)) for a in avoid)
+  pref = [a for a in alts if tkey((None, a)) not in used]
+  return r.choice(pref or alts)
+
+
+def _guided_dp(dp, node, r):
+  """(kind, node') for the decision point dp answered by the valid `node`."""
+  out = []
+  if dp[0] != 'choices':
+    return out
+  _, k, cands, _, _, _, _ = dp
+  picks = [node] if k == 1 else list(node[1])
+  base = [p[0] for p in picks]
+  for lst in index_list_edits(dp, base):
+    reason = index_list_reason(dp, lst)
+    if k == 1 and len(lst) != 1:
+      continue
+    new = []
+    for j, v in enumerate(lst):
+      if j < len(picks) and _is_int(v) and picks[j][0] == v:
+        new.append(picks[j])
+      elif _is_int(v) and 0 <= v < len(cands):
+        same = [p[1] for p in picks + new if p[0] == v]
+        new.append((v, _other_children(cands[v], same, r)))
+      else:
+        new.append((v, ()))
+    tree = new[0] if k == 1 else (None, tuple(new))
+    if reason == 'duplicate-choices':
+      reason = why_not_dp(dp, tree) or reason      # with-other-sub-decisions?
+    elif reason is None:
+      # other choices that satisfy every constraint: a member again
+      reason = ('member-repeating-a-candidate' if repeats_candidate(new)
+                else 'member')
+    out.append(('guided-' + reason, tree))
+  for j, p in enumerate(picks):
+    for kind, ch in _guided_children(cands[p[0]], p[1], r):
+      np_ = (p[0], ch)
+      out.append((kind, np_ if k == 1 else
+                  (None, tuple(picks[:j] + [np_] + picks[j + 1:]))))
+  return out
+
+
+def _guided_children(space, children, r):
+  """(kind, children') for the children tuple representing a member of space."""
+  elems = space[1]
+  if not elems:
+    return []
+  children = tuple(children)
+  if len(elems) == 1:
+    e = elems[0]
+    multi = e[0] == 'choices' and e[1] > 1
+    node = (None, children) if multi else children[0]
+    return [(kind, n[1] if multi else (n,)) for kind, n in _guided_dp(e, node, r)]
+  out = []
+  for i, (e, c) in enumerate(zip(elems, children)):
+    for kind, n in _guided_dp(e, c, r):
+      out.append((kind, children[:i] + (n,) + children[i + 1:]))
+  return out
+
+
+def repeats_candidate(picks):
+  """True if two of the picks of a multi-choice take the same candidate with
+  different decisions in its sub-space."""
+  seen = {}
+  return any(seen.setdefault(p[0], tkey((None, p[1]))) != tkey((None, p[1]))
+             for p in picks)
+
+
+def guided_corruptions(m, node, r):
+  """(kind, tree): member `node` of model m with one constraint among the
+  choices of one Choices broken and every other decision well-formed."""
+  if m[0] != 'space':
+    out = _guided_dp(m, node, r)
+  elif not m[1]:
+    out = []
+  elif len(m[1]) == 1:
+    out = _guided_dp(m[1][0], node, r)
+  else:
+    out = [(kind, (None, ch)) for kind, ch in _guided_children(m, node[1], r)]
+  seen, res = set(), []
+  for kind, t in out:
+    key = tkey(t)
+    if key not in seen:
+      seen.add(key)
+      res.append((kind, t))
   return res
 
 
@@ -1338,6 +1465,8 @@ def _check_accept(cx, api, kind, tree):
   ok = (rej != want) and not crash
   if want:
     cid = f'{api}/accept-member/{kind if kind == "member" else "edited"}'
+    if kind == 'guided-member-repeating-a-candidate':
+      cid += '-repeating-a-candidate-with-other-sub-decisions'
     w = cx.wit(f'{call}   # member: must be accepted')
     msg = f'member {actual!r} rejected: {text}'
   else:
@@ -1375,7 +1504,7 @@ def _check_accept(cx, api, kind, tree):
 
 
 def _member_checks(cx, per_spec_members, per_spec_corrupt, n_numbers,
-                   extra=()):
+                   extra=(), per_spec_guided=0):
   """validate / use_spec / DNA(spec=) / from_numbers of cx.spec vs the model."""
   rec, m, spec, r = cx.rec, cx.m, cx.spec, cx.r
   mem = cx.mem
@@ -1403,6 +1532,26 @@ def _member_checks(cx, per_spec_members, per_spec_corrupt, n_numbers,
   for j, (kind, c) in enumerate(chosen[:per_spec_corrupt]):
     _check_accept(cx, 'validate', kind, c)
     _check_accept(cx, 'bind' if j % 3 else 'bind-ctor', kind, c)
+  # model-guided corruptions (one constraint broken, the rest well-formed),
+  # stratified by the broken constraint, the constraints taking turns from a
+  # seeded starting point
+  if per_spec_guided:
+    gpool = {}
+    for t in base:
+      if touches_custom_children(m, t):
+        continue
+      for kind, c in guided_corruptions(m, t, r):
+        gpool.setdefault(kind, []).append(c)
+    gkinds = sorted(gpool)
+    r.shuffle(gkinds)
+    chosen = []
+    while len(chosen) < per_spec_guided and any(gpool.values()):
+      for kind in gkinds:
+        if gpool[kind] and len(chosen) < per_spec_guided:
+          chosen.append((kind, gpool[kind].pop(r.randrange(len(gpool[kind])))))
+    for j, (kind, c) in enumerate(chosen):
+      _check_accept(cx, 'validate', kind, c)
+      _check_accept(cx, 'bind-ctor' if j % 3 == 1 else 'bind', kind, c)
   # from_numbers: flat decisions bind exactly when they spell a member
   flats = {}
   for t in mem:
@@ -1449,7 +1598,12 @@ def drv_membership(tier, seed):
              'seeded sample beyond), every one-step corruption of sampled '
              'members (value -> negative/out-of-range/other type/None, '
              'dropped/extra/swapped/duplicated children, child under leaf, '
-             'value on container), all trees with <=3 nodes over '
+             'value on container), model-guided corruptions of the same '
+             'members (one constraint among the choices of one Choices broken '
+             '-- arity, index range/type, a repeated candidate with the same '
+             'or with other sub-decisions, order -- while every pick keeps a '
+             'well-formed sub-tree; 10 per spec, thorough 60, the constraints '
+             'taking turns), all trees with <=3 nodes over '
              '{-1,0,1,None} for tiny specs, and DNA.from_numbers on member '
              'numbers and one-step corrupted numbers; every refused use_spec '
              'is repeated on the same DNA object (still refused, DNA not '
@@ -1467,6 +1621,15 @@ def drv_membership(tier, seed):
       (SP(leaf(2)), (2, ()), 'value-large'),
       (SP(leaf(2)), (0, ((0, ()),)), 'child-under-leaf'),
       (SP(leaf(2), leaf(2)), (None, ((0, ()), (2, ()))), 'value-large'),
+      # one constraint among the choices broken, every pick well-formed below
+      (CH(2, [S2, C, C], True, False),
+       (None, ((0, ((0, ()),)), (0, ((1, ()),)))), 'guided'),
+      (SP(ONE([SP(CH(2, [S2, C], True, True)), C])),
+       (0, ((0, ((0, ()),)), (0, ((1, ()),)))), 'guided'),
+      (SP(CH(2, [C, S2], False, True)),
+       (None, ((1, ((1, ()),)), (0, ()))), 'guided'),
+      (SP(CH(2, [S2, S2], True, True), leaf(2)),
+       (None, ((None, ((1, ((0, ()),)), (0, ((1, ()),)))), (0, ()))), 'guided'),
   ]:
     cx = Cx(rec, m, r, tier)
     for api in ('validate', 'bind', 'bind-ctor'):
@@ -1478,7 +1641,8 @@ def drv_membership(tier, seed):
     if time.process_time() - t0 > budget_s:
       break
     _member_checks(Cx(rec, m, r, tier), per_spec_members, per_spec_corrupt,
-                   10 if tier == 'quick' else 30)
+                   10 if tier == 'quick' else 30,
+                   per_spec_guided=10 if tier == 'quick' else 60)
   # all small trees against tiny specs
   tiny = [SP(leaf(2)), SP(leaf(2, 2, True, False)), SP(leaf(2), leaf(2)),
           SP(ONE([C, S2])), SP(leaf(2, 2, False, True))]
@@ -1563,64 +1727,142 @@ def _random_checks(cx, draws):
                cx.wit(f'import random\nassert {call}.spec is None'))
 
 
+ASK_SRC = (
+    'def ask(a, times):\n'
+    '  out = []\n'
+    '  for _ in range(times):\n'
+    '    try: out.append(a.propose().to_numbers())\n'
+    '    except StopIteration: out.append("stop")\n'
+    '  return out\n')
+
+
+def _ask(algo, times):
+  """Outcome of `times` propose() requests: tree | 'stop' | 'raised ...'."""
+  out = []
+  for _ in range(times):
+    try:
+      out.append(shape(algo.propose()))
+    except StopIteration:
+      out.append('stop')
+    except Exception as e:  # pylint: disable=broad-except
+      out.append(f'raised {type(e).__name__}: {e}'[:120])
+  return out
+
+
+def _until_stop(res):
+  """(proposals before the first 'stop', the outcomes from it on)."""
+  i = res.index('stop') if 'stop' in res else len(res)
+  return res[:i], res[i:]
+
+
+def _flat_or_text(x):
+  return flat(x) if isinstance(x, tuple) else x
+
+
+def _same_trees(got, want):
+  return (all(isinstance(x, tuple) for x in got)
+          and [tkey(x) for x in got] == [tkey(x) for x in want])
+
+
 def _sweep_checks(cx, light=False):
-  """pg.geno.Sweeping proposes the member sequence."""
+  """pg.geno.Sweeping proposes the member sequence -- and then nothing.
+
+  The sequence of the statement ends ("ending with no successor"): the
+  generator is asked beyond the end, through every way of asking (propose()
+  again, iterating the generator again, propose() after the whole history was
+  recovered), and every request after the end must be refused again.
+  """
   rec, m, spec, r = cx.rec, cx.m, cx.spec, cx.r
   mem = cx.mem
+  n = len(mem)
   want = [flat(t) for t in mem]
   cls = _multi_class(m)
+  new_algo = 'a = pg.geno.Sweeping(); a.setup(spec)\n'
+
+  def exhausted(how, key, after, told, body):
+    rec.case(cx.cid('sweeping/exhausted-stays-exhausted'),
+             (cx.label, how) + key, all(x == 'stop' for x in after),
+             f'{told}, but the next requests ({how}) gave '
+             f'{[_flat_or_text(x) for x in after]!r}', cx.wit(body))
+
   algo = pg.geno.Sweeping()
   algo.setup(spec)
-  got = []
-  err = ''
-  try:
-    for _ in range(len(mem) + 3):
-      got.append(algo.propose())
-  except StopIteration:
-    pass
-  except Exception as e:  # pylint: disable=broad-except
-    err = f'{type(e).__name__}: {e}'
-  ok = not err and [tkey(shape(d)) for d in got] == [tkey(t) for t in mem]
-  rec.case(cx.cid('sweeping/propose-sequence', cls), cx.label, ok,
-           err or f'proposed {[flat(shape(d)) for d in got]!r}, want {want!r}',
-           cx.wit('a = pg.geno.Sweeping(); a.setup(spec)\n'
-                  f'got = [d.to_numbers() for d in a]\nassert got == {want!r}, got'))
+  got, after = _until_stop(_ask(algo, n + 3))
+  rec.case(cx.cid('sweeping/propose-sequence', cls), cx.label,
+           _same_trees(got, mem),
+           f'proposed {[_flat_or_text(x) for x in got]!r}, want {want!r}',
+           cx.wit(ASK_SRC + new_algo + f'got = ask(a, {n + 3})\n'
+                  'got = got[:got.index("stop")] if "stop" in got else got\n'
+                  f'assert got == {want!r}, got'))
+  if after:
+    exhausted('propose-again', (), after[1:],
+              f'StopIteration after {len(got)} proposals',
+              ASK_SRC + new_algo + f'got = ask(a, {n + 3})\n'
+              'end = got.index("stop")\n'
+              'assert got[end:] == ["stop"] * len(got[end:]), got')
   if light:
     return
   algo = pg.geno.Sweeping()
   algo.setup(spec)
-  got2 = [shape(d) for d in itertools.islice(iter(algo), len(mem) + 3)]
+  try:
+    got2 = [shape(d) for d in itertools.islice(iter(algo), n + 3)]
+    err = ''
+  except Exception as e:  # pylint: disable=broad-except
+    got2, err = [], f'iterating the generator raised {type(e).__name__}: {e}'
   rec.case(cx.cid('sweeping/iter-sequence', cls), cx.label,
-           [tkey(t) for t in got2] == [tkey(t) for t in mem],
-           f'iterated {[flat(t) for t in got2]!r}, want {want!r}',
-           cx.wit('a = pg.geno.Sweeping(); a.setup(spec)\n'
-                  f'got = [d.to_numbers() for d in a]\nassert got == {want!r}, got'))
+           not err and _same_trees(got2, mem),
+           err or f'iterated {[flat(t) for t in got2]!r}, want {want!r}',
+           cx.wit(new_algo + 'import itertools\n'
+                  f'got = [d.to_numbers() for d in itertools.islice(a, {n + 3})]\n'
+                  f'assert got == {want!r}, got'))
   rec.case(cx.cid('sweeping/num_proposals', cls), cx.label,
-           algo.num_proposals == len(mem),
-           f'num_proposals={algo.num_proposals}, want {len(mem)}',
-           cx.wit('a = pg.geno.Sweeping(); a.setup(spec); list(a)\n'
-                  f'assert a.num_proposals == {len(mem)}, a.num_proposals'))
-  # recover from a history prefix, then continue
-  j = r.randrange(1, len(mem) + 1) if mem else 0
+           algo.num_proposals == n,
+           f'num_proposals={algo.num_proposals}, want {n}',
+           cx.wit(new_algo + 'list(a)\n'
+                  f'assert a.num_proposals == {n}, a.num_proposals'))
+  if not err and len(got2) <= n:          # the iteration came to an end
+    try:
+      again = [shape(d) for d in itertools.islice(iter(algo), 3)]
+    except Exception as e:  # pylint: disable=broad-except
+      again = [f'raised {type(e).__name__}: {e}'[:120]]
+    exhausted('iterate-again', (), again,
+              f'the iteration of the generator ended after {len(got2)} DNAs',
+              new_algo + 'import itertools\nfirst = list(a)\n'
+              'again = [d.to_numbers() for d in itertools.islice(a, 3)]\n'
+              'assert not again, again')
+  # recover from a history prefix (given in two parts: there may be several
+  # sources of history), then continue to the end and beyond
+  j = r.randrange(1, n + 1) if mem else 0
   if j:
+    cut = r.randrange(j + 1)
     algo = pg.geno.Sweeping()
     algo.setup(spec)
-    algo.recover([(mk(t).use_spec(spec), None) for t in mem[:j]])
-    try:
-      nx = shape(algo.propose())
-    except StopIteration:
-      nx = None
-    wantn = mem[j] if j < len(mem) else None
-    ok = (nx is None and wantn is None) or (
-        nx is not None and wantn is not None and tkey(nx) == tkey(wantn))
     hist = '[' + ', '.join(f'({dsrc(t)}.use_spec(spec), None)'
                            for t in mem[:j]) + ']'
-    rec.case(cx.cid('sweeping/recover-then-propose', cls), (cx.label, j), ok,
-             f'after recovering {j} proposals propose() gave {nx!r}, want {wantn!r}',
-             cx.wit(f'a = pg.geno.Sweeping(); a.setup(spec); a.recover({hist})\n'
-                    'try: nx = a.propose().to_numbers()\n'
-                    'except StopIteration: nx = None\n'
-                    f'assert nx == {None if wantn is None else flat(wantn)!r}, nx'))
+    body = (ASK_SRC + new_algo + f'h = {hist}\n'
+            f'a.recover(h[:{cut}]); a.recover(h[{cut}:])\n'
+            f'got = ask(a, {n - j + 3})\n')
+    try:
+      h = [(mk(t).use_spec(spec), None) for t in mem[:j]]
+      algo.recover(h[:cut])
+      algo.recover(h[cut:])
+      res = _ask(algo, n - j + 3)
+    except Exception as e:  # pylint: disable=broad-except
+      res = [f'recover raised {type(e).__name__}: {e}'[:120]]
+    tail, after = _until_stop(res)
+    rec.case(cx.cid('sweeping/recover-then-propose', cls), (cx.label, j, cut),
+             _same_trees(tail, mem[j:]) and bool(after),
+             f'after recovering the first {j} proposals (history in parts of '
+             f'{cut} and {j - cut}) the generator proposed '
+             f'{[_flat_or_text(x) for x in tail]!r}, want {want[j:]!r} and '
+             'then StopIteration',
+             cx.wit(body + f'assert got[:{n - j + 1}] == {want[j:] + ["stop"]!r}, got'))
+    if after:
+      exhausted('after-recover', (j, cut), after[1:],
+                f'StopIteration after recovering {j} and proposing '
+                f'{len(tail)} DNAs',
+                body + 'end = got.index("stop")\n'
+                'assert got[end:] == ["stop"] * len(got[end:]), got')
 
 
 def drv_random_and_sweeping(tier, seed):
@@ -1631,7 +1873,10 @@ def drv_random_and_sweeping(tier, seed):
              'specs, 8 (thorough 40) seeded draws each through spec.random_dna / '
              'pg.random_dna / pg.geno.Random, with and without previous_dna; '
              'sweeping: specs of size<=12 (thorough 36) through propose(), iteration of the '
-             'generator and recover()+propose()'))
+             'generator and recover() (history in two parts) + propose() to '
+             'the end; every run goes 3 requests beyond the end (propose '
+             'again / iterate the generator again / after recover): the '
+             'exhausted generator proposes nothing more'))
   r = rng(seed, 'c11.random')
   t0 = time.process_time()
   budget_s = 38 if tier == 'quick' else 500
@@ -1684,7 +1929,7 @@ def drv_single_point_subspaces(tier, seed):
     _size_checks(cx)
     _iter_checks(cx, 40 if quick else 260, light=quick)
     _member_checks(cx, 3 if quick else 12, 6 if quick else 60,
-                   4 if quick else 20)
+                   4 if quick else 20, per_spec_guided=3 if quick else 30)
     _random_checks(cx, 2 if quick else 16)
     if len(cx.mem) <= (6 if quick else 36):
       _sweep_checks(cx, light=quick)
@@ -1797,7 +2042,8 @@ def drv_edited_specs(tier, seed):
       if not quick or counter % 2:
         _member_checks(cx, 3 if quick else 8, 5 if quick else 30,
                        3 if quick else 12,
-                       extra=[('member-before-the-edit', t) for t in stale])
+                       extra=[('member-before-the-edit', t) for t in stale],
+                       per_spec_guided=3 if quick else 16)
       if not quick or not counter % 2:
         _random_checks(cx, 3 if quick else 8)
         _from_fn_checks(cx, 1 if quick else 3, 3 if quick else 12)
